@@ -19,7 +19,8 @@ CHANGE = "rtr_change_socket_state"
 class ArmHooks(flow.Hooks):
     cap = 200
 
-    def __init__(self, fn, pdb, K, forks, cell, interesting, latch_blocks):
+    def __init__(self, fn, pdb, K, forks, cell, interesting, latch_blocks, effects=None):
+        self.effects = effects or {}
         self.fn = fn
         self.pdb = pdb
         self.K = K
@@ -67,6 +68,15 @@ class ArmHooks(flow.Hooks):
             return prop
         if inst.op == "call" and inst.callee:
             cal = inst.callee
+            if cal in self.effects:
+                # a callee that may change a pinned socket field: one continuation per listed outcome
+                outs = []
+                for label, upd in self.effects[cal]:
+                    f2 = {"__facts__": True}
+                    for k, v in upd.items():
+                        f2[("M", k)] = flow.av_in(v)
+                    outs.append((prop + (("call", cal, label, inst.line),), f2))
+                return outs
             if cal in self.forks:
                 outs = []
                 for val in self.forks[cal]:
@@ -83,7 +93,7 @@ class ArmHooks(flow.Hooks):
     done = None
 
 
-def explore_arm(pdb, K, forks=None, cell=None, interesting=()):
+def explore_arm(pdb, K, forks=None, cell=None, interesting=(), effects=None):
     fn = pdb.fn("rtr_fsm_start")
     loops = fn.loops()
     if not loops:
@@ -91,7 +101,7 @@ def explore_arm(pdb, K, forks=None, cell=None, interesting=()):
     # outermost loop = the one with the largest body
     header = max(loops, key=lambda h: len(loops[h]))
     latch = {t for (t, h) in fn.back_edges() if h == header}
-    h = ArmHooks(fn, pdb, K, forks or {}, cell, set(interesting), latch)
+    h = ArmHooks(fn, pdb, K, forks or {}, cell, set(interesting), latch, effects)
     h.done = []
     fl = flow.Flow(fn, h)
     fl.run()
